@@ -1,3 +1,5 @@
 import Model.Time
 import Model.Slots
 import Model.Scan
+import Model.Resolve
+import Model.Macro
